@@ -696,16 +696,70 @@ def S5(ctx: Ctx) -> RuleResult:
         chain = bool(method_calls(terms, '_get_next_token'))
         if not chain:
             r.fail(f'{c.name}.type_check_references:chain', 'accessor chain is not resolved with _get_next_token', res.where)
+        tm_param = res.params()[1] if len(res.params()) > 1 else 'this_msg'
         for sname in others:
-            visited = any(isinstance(call_recv(cl), Attr) and call_recv(cl).name == sname for cl in method_calls(terms, 'type_check_references'))
-            if visited:
-                r.ok(f'{c.name}: non-object slot {sname} is schema-checked')
+            calls = [cl for cl in method_calls(terms, 'type_check_references') if isinstance(call_recv(cl), Attr) and call_recv(cl).name == sname]
+            if calls:
+                bad = [cl for cl in calls if not (cl.args and isinstance(cl.args[0], Sym) and cl.args[0].name == tm_param)]
+                if bad:
+                    r.fail(f'{c.name}.type_check_references:{sname}:root', f'references inside slot {sname} are checked against {str(bad[0].args[0])[:50] if bad[0].args else None}, not against the current message type ({tm_param}): own fields used in an index of an aliased message fail to resolve', res.where)
+                else:
+                    r.ok(f'{c.name}: non-object slot {sname} is schema-checked against the current message')
             else:
                 r.fail(f'{c.name}.type_check_references:{sname}', f'references inside slot {sname} are never schema-checked', res.where)
         if not others:
             r.ok(f'{c.name}: object chain via {obj_slot}')
     r.floor('accessor classes', n, 2)
+    _delegation_chain(ctx, r)
     return r
+
+
+def _delegation_chain(ctx: Ctx, r: RuleResult):
+    """property -> every event -> predicate -> whole expression, with the arguments passed through unchanged"""
+    m = ctx.model
+    mt = Sym('msg_types')
+    # property level
+    pc = m.cls('HplProperty', 'S5')
+    fi = pc.resolve('type_check_references')
+    sp = Sym('self', 'HplProperty')
+    outs = ctx.ev.run(fi, {'self': sp, fi.params()[1]: mt}, self_cls=pc)
+    ok = False
+    for o in outs:
+        for e in o.effects:
+            if isinstance(e, Loop) and isinstance(e.iter, Call) and call_name(e.iter) == 'events' and call_recv(e.iter) == sp:
+                for pg, flow, binds, effs in e.paths:
+                    cs = method_calls(list(effs), 'type_check_references')
+                    if len(cs) == 1 and not pg and cs[0].args == (mt,) and isinstance(call_recv(cs[0]), Sym):
+                        ok = True
+                    elif cs and cs[0].args != (mt,):
+                        r.fail('HplProperty.type_check_references:map', f'events are checked against {str(cs[0].args)[:60]}, not against the caller\'s channel map itself: entries added or shadowed there change which schema a channel resolves to', fi.where)
+    (r.ok('HplProperty: every event of events() is checked against the given channel map') if ok else r.fail('HplProperty.type_check_references', 'does not check every event of events() against msg_types', fi.where))
+    # disjunction
+    ed = m.cls('HplEventDisjunction', 'S5')
+    fi = ed.resolve('type_check_references')
+    se = Sym('self', 'HplEventDisjunction')
+    outs = ctx.ev.run(fi, {'self': se, fi.params()[1]: mt}, self_cls=ed)
+    recvs = {call_recv(cl).name for o in outs for cl in method_calls(list(o.effects), 'type_check_references') if isinstance(call_recv(cl), Attr) and cl.args == (mt,)}
+    (r.ok('HplEventDisjunction: both alternatives') if recvs == {'event1', 'event2'} else r.fail('HplEventDisjunction.type_check_references', f'checks {sorted(recvs)} instead of event1 and event2', fi.where))
+    # predicate level
+    pe = m.cls('HplPredicateExpression', 'S5')
+    fi = pe.resolve('type_check_references')
+    spp = Sym('self', 'HplPredicateExpression')
+    tm, var = Sym('this_msg'), Sym('variables')
+    ps = fi.params()
+    outs = ctx.ev.run(fi, {'self': spp, ps[1]: tm, ps[2]: var}, self_cls=pe)
+    good = False
+    for o in outs:
+        for t in [o.value] + list(o.effects):
+            if isinstance(t, Call) and call_name(t) == 'type_check_references' and call_recv(t) == Attr(spp, 'expression'):
+                a0 = t.args[0] if t.args else t.kw('this_msg')
+                a1 = t.kw('variables') if t.kw('variables') is not None else (t.args[1] if len(t.args) > 1 else None)
+                if a0 == tm and a1 == var and not o.guards:
+                    good = True
+    if good and len(outs) == 1:
+        r.ok('HplPredicateExpression: the whole expression is checked')
+    else:
+        r.fail('HplPredicateExpression.type_check_references', f'does not simply check the whole expression with the given types: {[str(o)[:100] for o in outs]} (occurrences may be skipped)', fi.where)
 
 
 # ------------------------------------------------------------ abstract coverage
